@@ -15,6 +15,7 @@ import os
 import shutil
 import subprocess
 import sys
+import threading
 import traceback
 from dataclasses import dataclass, field
 from pathlib import Path
@@ -41,6 +42,7 @@ class Job:
     snapshot_meta: bool = False  # record (mode, mtime_ns) per file as well
     proj_rel: str = "proj"  # where the target directory lives under the scratch root (e.g. "tests/venv/proj")
     debug_logs: bool = False  # capture DEBUG records too (without --verbose, so semgrep stays piped)
+    out_kind: str | None = None  # what sits at the report path before the run: "fifo" (a reader is attached), "existing", "symlink"
 
 
 @dataclass
@@ -261,6 +263,65 @@ def _resolve_hook(spec):
     return getattr(importlib.import_module(mod), fn)
 
 
+class _OutTarget:
+    """Non-regular report targets: a named pipe with a reader attached, a stale file, a symlink to a file elsewhere."""
+
+    def __init__(self, kind, out: Path, root: Path):
+        self.kind, self.out, self.data, self.thread = kind, out, None, None
+        if kind == "fifo":
+            os.mkfifo(out)
+            self.thread = threading.Thread(target=self._read, daemon=True)
+            self.thread.start()
+        elif kind == "existing":
+            out.write_text("stale report of an earlier run\n")
+            self.stale = out.read_bytes()
+        elif kind == "symlink":
+            self.target = root / "report_target.json"
+            self.target.write_bytes(b"")
+            out.symlink_to(self.target)
+
+    def _read(self):
+        with open(self.out, "rb") as f:
+            self.data = f.read()
+
+    def collect(self):
+        """-> raw text written to the target, or None when nothing was written."""
+        if self.kind == "fifo":
+            # release a reader whose pipe was never opened for writing
+            with contextlib.suppress(OSError):
+                fd = os.open(self.out, os.O_WRONLY | os.O_NONBLOCK)
+                os.close(fd)
+            self.thread.join(timeout=20)
+            with contextlib.suppress(OSError):
+                os.unlink(self.out)
+            return self.data.decode("utf-8", "replace") if self.data else None
+        raw = None
+        if self.out.is_file():
+            b = self.out.read_bytes()
+            if b and b != getattr(self, "stale", None):
+                raw = b.decode("utf-8", "replace")
+        with contextlib.suppress(OSError):
+            self.out.unlink()
+        return raw
+
+
+def _report_from(out: Path, target, root: Path):
+    rep = raw = None
+    if target is not None:
+        raw = target.collect()
+    elif out.is_file():
+        try:
+            raw = out.read_text(encoding="utf-8")
+        except Exception as e:
+            return {"__unreadable__": repr(e)}, None
+    if raw is not None:
+        try:
+            rep = normalise_report(json.loads(raw), str(root))
+        except Exception as e:
+            rep = {"__unreadable__": repr(e)}
+    return rep, raw
+
+
 def run_inproc(job: Job) -> Observation:
     init_inproc()
     import codemodder.codemodder as cm
@@ -306,6 +367,7 @@ def run_inproc(job: Job) -> Observation:
             argv = _subst(job.argv, mapping, resd)
             if job.output:
                 argv += ["--output", str(out)]
+            target = _OutTarget(job.out_kind, out, root) if job.out_kind else None
             reset_caches()
             del _log_records[:]
             del _semgrep_calls[:]
@@ -327,13 +389,7 @@ def run_inproc(job: Job) -> Observation:
             )
             obs.stdout.append(so.getvalue())
             obs.stderr.append(se.getvalue())
-            rep = raw = None
-            if out.is_file():
-                try:
-                    raw = out.read_text(encoding="utf-8")
-                    rep = normalise_report(json.loads(raw), str(root))
-                except Exception as e:
-                    rep = {"__unreadable__": repr(e)}
+            rep, raw = _report_from(out, target, root)
             obs.reports.append(rep)
             obs.report_raw.append(raw)
             meta = {} if job.snapshot_meta else None
@@ -390,6 +446,7 @@ def run_cli(job: Job, hashseed: str = "0", timeout: int = 600) -> Observation:
             argv = _subst(job.argv, mapping, resd)
             if job.output:
                 argv += ["--output", str(out)]
+            target = _OutTarget(job.out_kind, out, root) if job.out_kind else None
             cmd = [
                 core.PY,
                 "-c",
@@ -401,13 +458,7 @@ def run_cli(job: Job, hashseed: str = "0", timeout: int = 600) -> Observation:
             obs.stdout.append(so)
             obs.stderr.append(p.stderr.decode("utf-8", "replace"))
             obs.logs.append(so.splitlines())
-            rep = raw = None
-            if out.is_file():
-                try:
-                    raw = out.read_text(encoding="utf-8")
-                    rep = normalise_report(json.loads(raw), str(root))
-                except Exception as e:
-                    rep = {"__unreadable__": repr(e)}
+            rep, raw = _report_from(out, target, root)
             obs.reports.append(rep)
             obs.report_raw.append(raw)
             meta = {} if job.snapshot_meta else None
